@@ -112,9 +112,9 @@ def get_emit_kwarg(decorator_list, emit_call, emit_name, name_tpl, name):
                 "decorator_list": decorator_list,
                 "emit_call": emit_call,
             },
-            "sqlalchemy": {"table_name": _name},
-            "sqlalchemy_hybrid": {"table_name": _name},
-            "sqlalchemy_table": {"table_name": _name},
+            "sqlalchemy": {"class_name": _name, "table_name": _name},
+            "sqlalchemy_hybrid": {"class_name": _name, "table_name": _name},
+            "sqlalchemy_table": {"name": _name, "table_name": _name},
         }[emit_name]
     )(None if name == "infer" else ensure_valid_identifier(name_tpl.format(name=name)))
 
